@@ -20,6 +20,16 @@ Definition zmem (x : Z) (l : list Z) : bool := existsb (Z.eqb x) l.
 Fixpoint map2 {A B C} (f : A -> B -> C) (a : list A) (b : list B) : list C :=
   match a, b with x :: xs, y :: ys => f x y :: map2 f xs ys | _, _ => [] end.
 
+(* ---------- periods of the dataslate (dataslates/main.py::_get_extended_span) ---------- *)
+
+(* the base span extended by the deepest lag (min_shift <= 0) and the deepest lead (max_shift >= 0) with which ANY
+   quantity -- endogenous or exogenous variable, shock, parameter -- occurs in the equations *)
+Definition extended_periods (base_first base_last min_shift max_shift : Z) : list Z :=
+  zrange (base_first + min_shift) (base_last + max_shift + 1).
+
+(* column of a period in the data array *)
+Definition column_of (first_column_period p : Z) : Z := p - first_column_period.
+
 (* ---------- break points (frames._populate_base_break_points, _update_break_points) ---------- *)
 
 (* np.any(..., axis=0) of a rows x n boolean array *)
